@@ -20,6 +20,7 @@ type Ctx struct {
 	R      *report.Run
 	Tier   string
 	global *sym.Mem
+	decCache map[bool][]*opSummary
 }
 
 // RuleFunc implements one or more rules of a property.
